@@ -15,11 +15,17 @@ import (
 	"crypto/sha256"
 	"fmt"
 	"go/ast"
+	"go/parser"
 	"go/token"
+	"os"
+	"regexp"
 	"strings"
 
 	"verifextract/ex"
 )
+
+var emptyGuard = regexp.MustCompile(`^if len\((\w+)\.items\) == 0 \{ return \}$`)
+var flushLast = regexp.MustCompile(`^if len\((\w+)\.characters\) > 0 \{ (\w+)\.lines = append\((\w+)\.lines, (\w+)\) \}$`)
 
 func main() { ex.Main([]string{"ListFacts.lean"}, gen) }
 
@@ -30,26 +36,86 @@ func norm(c *ex.Ctx, n ast.Node) string {
 
 func normStr(s string) string { return strings.Join(strings.Fields(s), " ") }
 
-// expr translates the tiny expression language of the index assignments.
-func expr(c *ex.Ctx, e ast.Expr) (string, bool) {
+// canon prints a function body with its local variables (receiver, parameters, locals — everything
+// the parser resolves to a variable declared inside the function) renamed to v0, v1, … in order of
+// first appearance, so that a consistent renaming of locals is not a change.
+func canon(c *ex.Ctx, fd *ast.FuncDecl) string {
+	names := map[*ast.Object]string{}
+	ast.Inspect(fd, func(n ast.Node) bool {
+		id, ok := n.(*ast.Ident)
+		if !ok || id.Obj == nil || id.Obj.Kind != ast.Var || id.Name == "_" {
+			return true
+		}
+		if id.Obj.Pos() < fd.Pos() || id.Obj.Pos() > fd.End() {
+			return true
+		}
+		if _, seen := names[id.Obj]; !seen {
+			names[id.Obj] = fmt.Sprintf("v%d", len(names))
+		}
+		return true
+	})
+	ast.Inspect(fd, func(n ast.Node) bool {
+		if id, ok := n.(*ast.Ident); ok && id.Obj != nil {
+			if nm, ok := names[id.Obj]; ok {
+				id.Name = nm
+			}
+		}
+		return true
+	})
+	// the printer lays composite literals out differently depending on line information: squash
+	return strings.ReplaceAll(strings.ReplaceAll(norm(c, fd.Body), " ", ""), ",}", "}")
+}
+
+// wantFunc compares the body of fd (optional statements already removed) with the body the model
+// transcribes (wantBodies[key], Go source), modulo renaming of locals. sig is the Go signature
+// under which the expected body is parsed.
+func wantFunc(c *ex.Ctx, key string, fd *ast.FuncDecl, sig string) bool {
+	if os.Getenv("VERIF_C19_DUMP") != "" {
+		fmt.Printf("\t%q: `%s`,\n", key, c.Src(fd.Body))
+		return true
+	}
+	want, ok := wantBodies[key]
+	if !ok {
+		c.Fail("%s: internal: no expected body", key)
+		return false
+	}
+	src := "package p\n" + sig + " " + want + "\n"
+	f2, err := parser.ParseFile(token.NewFileSet(), "want.go", src, 0)
+	if err != nil {
+		c.Fail("%s: internal: expected text does not parse: %v", key, err)
+		return false
+	}
+	fd2 := f2.Decls[0].(*ast.FuncDecl)
+	c2 := &ex.Ctx{Fset: token.NewFileSet()}
+	got, exp := canon(c, fd), canon(c2, fd2)
+	if got != exp {
+		c.Fail("%s (%s) differs from what the model transcribes:\n    got  %s\n    want %s", key, c.Pos(fd), got, exp)
+		return false
+	}
+	return true
+}
+
+type names struct{ recv, items, height string }
+
+func expr(c *ex.Ctx, nm names, e ast.Expr) (string, bool) {
 	switch v := e.(type) {
 	case *ast.ParenExpr:
-		return expr(c, v.X)
+		return expr(c, nm, v.X)
 	case *ast.BasicLit:
 		if v.Kind == token.INT {
 			return v.Value, true
 		}
 	case *ast.Ident:
-		if v.Name == "height" {
+		if nm.height != "" && v.Name == nm.height {
 			return "height", true
 		}
 	case *ast.SelectorExpr:
-		if norm(c, v) == "m.index" {
+		if norm(c, v) == nm.recv+".index" {
 			return "index", true
 		}
 	case *ast.BinaryExpr:
-		a, ok1 := expr(c, v.X)
-		b, ok2 := expr(c, v.Y)
+		a, ok1 := expr(c, nm, v.X)
+		b, ok2 := expr(c, nm, v.Y)
 		if ok1 && ok2 && (v.Op == token.ADD || v.Op == token.SUB) {
 			return "(" + a + " " + v.Op.String() + " " + b + ")", true
 		}
@@ -60,13 +126,13 @@ func expr(c *ex.Ctx, e ast.Expr) (string, bool) {
 		}
 		if fn.Name == "len" && len(v.Args) == 1 {
 			s := norm(c, v.Args[0])
-			if s == "m.items" || s == "items" {
+			if s == nm.recv+".items" || (nm.items != "" && s == nm.items) {
 				return "n", true
 			}
 		}
 		if (fn.Name == "min" || fn.Name == "max") && len(v.Args) == 2 {
-			a, ok1 := expr(c, v.Args[0])
-			b, ok2 := expr(c, v.Args[1])
+			a, ok1 := expr(c, nm, v.Args[0])
+			b, ok2 := expr(c, nm, v.Args[1])
 			if ok1 && ok2 {
 				return "(" + fn.Name + " " + a + " " + b + ")", true
 			}
@@ -76,19 +142,143 @@ func expr(c *ex.Ctx, e ast.Expr) (string, bool) {
 	return "", false
 }
 
-func wantBody(c *ex.Ctx, what string, stmts []ast.Stmt, want []string) bool {
-	if len(stmts) != len(want) {
-		c.Fail("%s: %d statements, the model transcribes %d", what, len(stmts), len(want))
-		return false
+// wantBodies: the bodies the hand-written models transcribe (widgets/list New/Index/Draw/min/max, widgets/pager
+// Layout/Draw/Scroll*, widgets/scrollbar Draw), without the optional repair statements reported as Bools.
+var wantBodies = map[string]string{
+	"list.go min": `{
+	if a < b {
+		return a
 	}
-	ok := true
-	for i, s := range stmts {
-		if got := norm(c, s); got != normStr(want[i]) {
-			c.Fail("%s (%s): statement %d is\n    %s\n  the model transcribes\n    %s", what, c.Pos(s), i, got, normStr(want[i]))
-			ok = false
+	return b
+}`,
+	"list.go max": `{
+	if a > b {
+		return a
+	}
+	return b
+}`,
+	"list.go New": `{
+	return List{
+		items: items,
+	}
+}`,
+	"list.go Index": `{
+	return m.index
+}`,
+	"list.go Draw": `{
+	_, height := win.Size()
+
+	if m.index >= m.offset+height {
+		m.offset = m.index - height + 1
+	} else if m.index < m.offset {
+		m.offset = m.index
+	}
+
+	defaultStyle := vaxis.Style{}
+	selectedStyle := vaxis.Style{Attribute: vaxis.AttrReverse}
+
+	index := m.index - m.offset
+	for i, subject := range m.items[m.offset:] {
+		var style vaxis.Style
+		if i == index {
+			style = selectedStyle
+		} else {
+			style = defaultStyle
+		}
+		win.Println(i, vaxis.Segment{Text: subject, Style: style})
+	}
+
+}`,
+	"pager.go Layout": `{
+	m.lines = []*line{}
+	l := &line{}
+	col := 0
+	for _, seg := range m.Segments {
+		for _, char := range vaxis.Characters(seg.Text) {
+			if strings.ContainsRune(char.Grapheme, '\n') {
+				m.lines = append(m.lines, l)
+				l = &line{}
+				col = 0
+				continue
+			}
+			cell := vaxis.Cell{
+				Character:	char,
+				Style:		seg.Style,
+			}
+			l.append(cell)
+			col += char.Width
+			if col >= m.width {
+				m.lines = append(m.lines, l)
+				l = &line{}
+				col = 0
+			}
 		}
 	}
-	return ok
+
+}`,
+	"pager.go Draw": `{
+	w, h := win.Size()
+	if w != m.width {
+		m.width = w
+		m.Layout()
+	}
+	if len(m.lines)-m.Offset < h {
+		m.Offset = len(m.lines) - h
+	}
+	if m.Offset < 0 {
+		m.Offset = 0
+	}
+	if m.Fill.Grapheme == "" {
+		m.Fill.Character = defaultFill
+	}
+	win.Fill(m.Fill)
+	for row, l := range m.lines {
+		if row < m.Offset {
+			continue
+		}
+		if (row - m.Offset) >= h {
+			return
+		}
+		col := 0
+		for _, cell := range l.characters {
+			win.SetCell(col, row-m.Offset, cell)
+			col += cell.Width
+		}
+	}
+}`,
+	"pager.go ScrollDown": `{
+	m.Offset += 1
+}`,
+	"pager.go ScrollUp": `{
+	m.Offset -= 1
+}`,
+	"scrollbar.go Draw": `{
+	if m.TotalHeight < 1 {
+		return
+	}
+
+	if m.ViewHeight >= m.TotalHeight {
+
+		return
+	}
+	_, h := win.Size()
+	barH := (m.ViewHeight * h) / m.TotalHeight
+	if barH < 1 {
+		barH = 1
+	}
+	barTop := (m.Top * h) / m.TotalHeight
+
+	if m.Character.Grapheme == "" {
+		m.Character = defaultChar
+	}
+	for i := 0; i < barH; i += 1 {
+		cell := vaxis.Cell{
+			Character:	m.Character,
+			Style:		m.Style,
+		}
+		win.SetCell(0, barTop+i, cell)
+	}
+}`,
 }
 
 func gen(c *ex.Ctx) {
@@ -100,13 +290,13 @@ func gen(c *ex.Ctx) {
 	if f == nil {
 		return
 	}
-	for nm, cmp := range map[string]string{"min": "<", "max": ">"} {
+	for _, nm := range []string{"min", "max"} {
 		fd := ex.FindFunc(f, "", nm)
 		if fd == nil {
 			c.Fail("widgets/list/list.go: helper %s not found", nm)
 			continue
 		}
-		wantBody(c, "list.go "+nm, fd.Body.List, []string{"if a " + cmp + " b { return a }", "return b"})
+		wantFunc(c, "list.go "+nm, fd, "func "+nm+"(a, b int) int")
 	}
 	methods := []struct{ goName, leanName string }{
 		{"Down", "down"}, {"Up", "up"}, {"Home", "home"}, {"End", "«end»"},
@@ -120,15 +310,32 @@ func gen(c *ex.Ctx) {
 			continue
 		}
 		var rhs ast.Expr
+		nm := names{}
+		if fd.Recv != nil && len(fd.Recv.List) == 1 && len(fd.Recv.List[0].Names) == 1 {
+			nm.recv = fd.Recv.List[0].Names[0].Name
+		} else {
+			c.Fail("%s: List.%s has no named receiver", c.Pos(fd), m.goName)
+			continue
+		}
+		winName := ""
+		if ps := fd.Type.Params.List; len(ps) == 1 && len(ps[0].Names) == 1 {
+			if m.goName == "SetItems" {
+				nm.items = ps[0].Names[0].Name
+			} else {
+				winName = ps[0].Names[0].Name
+			}
+		}
 		for i, s := range fd.Body.List {
 			t := norm(c, s)
+			as, isAssign := s.(*ast.AssignStmt)
 			switch {
-			case t == "_, height := win.Size()" && (m.goName == "PageDown" || m.goName == "PageUp") && i == 0:
-			case t == "m.items = items" && m.goName == "SetItems" && i == 0:
+			case (m.goName == "PageDown" || m.goName == "PageUp") && i == 0 && isAssign && as.Tok == token.DEFINE &&
+				len(as.Lhs) == 2 && norm(c, as.Lhs[0]) == "_" && len(as.Rhs) == 1 && norm(c, as.Rhs[0]) == winName+".Size()":
+				nm.height = norm(c, as.Lhs[1])
+			case t == nm.recv+".items = "+nm.items && m.goName == "SetItems" && i == 0:
 			default:
-				as, ok := s.(*ast.AssignStmt)
-				if !ok || as.Tok != token.ASSIGN || len(as.Lhs) != 1 || len(as.Rhs) != 1 || norm(c, as.Lhs[0]) != "m.index" || rhs != nil || i != len(fd.Body.List)-1 {
-					c.Fail("%s: List.%s statement %q is not the single final `m.index = …`", c.Pos(s), m.goName, t)
+				if !isAssign || as.Tok != token.ASSIGN || len(as.Lhs) != 1 || len(as.Rhs) != 1 || norm(c, as.Lhs[0]) != nm.recv+".index" || rhs != nil || i != len(fd.Body.List)-1 {
+					c.Fail("%s: List.%s statement %q is not the single final `%s.index = …`", c.Pos(s), m.goName, t, nm.recv)
 					continue
 				}
 				rhs = as.Rhs[0]
@@ -138,33 +345,27 @@ func gen(c *ex.Ctx) {
 			c.Fail("widgets/list/list.go: List.%s has no `m.index = …`", m.goName)
 			continue
 		}
-		if s, ok := expr(c, rhs); ok {
+		if s, ok := expr(c, nm, rhs); ok {
 			fmt.Fprintf(&sb, "def %s (n index height : Int) : Int := %s  -- %s\n", m.leanName, s, norm(c, rhs))
 		}
 	}
 	if fd := ex.FindFunc(f, "", "New"); fd != nil {
-		wantBody(c, "list.go New", fd.Body.List, []string{"return List{ items: items, }"})
+		wantFunc(c, "list.go New", fd, "func New(items []string) List")
 	} else {
 		c.Fail("widgets/list/list.go: New not found")
 	}
 	if fd := ex.FindFunc(f, "List", "Index"); fd != nil {
-		wantBody(c, "list.go Index", fd.Body.List, []string{"return m.index"})
+		wantFunc(c, "list.go Index", fd, "func (m *List) Index() int")
 	}
 	guard := false
 	if fd := ex.FindFunc(f, "List", "Draw"); fd != nil {
 		st := fd.Body.List
-		if len(st) > 1 && norm(c, st[1]) == "if len(m.items) == 0 { return }" {
+		if len(st) > 1 && emptyGuard.MatchString(norm(c, st[1])) {
 			guard = true
 			st = append([]ast.Stmt{st[0]}, st[2:]...)
 		}
-		wantBody(c, "list.go Draw", st, []string{
-			"_, height := win.Size()",
-			"if m.index >= m.offset+height { m.offset = m.index - height + 1 } else if m.index < m.offset { m.offset = m.index }",
-			"defaultStyle := vaxis.Style{}",
-			"selectedStyle := vaxis.Style{Attribute: vaxis.AttrReverse}",
-			"index := m.index - m.offset",
-			"for i, subject := range m.items[m.offset:] { var style vaxis.Style if i == index { style = selectedStyle } else { style = defaultStyle } win.Println(i, vaxis.Segment{Text: subject, Style: style}) }",
-		})
+		fd.Body.List = st
+		wantFunc(c, "list.go Draw", fd, "func (m *List) Draw(win vaxis.Window)")
 	} else {
 		c.Fail("widgets/list/list.go: List.Draw not found")
 	}
@@ -178,39 +379,27 @@ func gen(c *ex.Ctx) {
 	flush := false
 	if fd := ex.FindFunc(p, "Model", "Layout"); fd != nil {
 		st := fd.Body.List
-		if n := len(st); n > 0 && norm(c, st[n-1]) == "if len(l.characters) > 0 { m.lines = append(m.lines, l) }" {
+		if n := len(st); n > 0 && flushLast.MatchString(norm(c, st[n-1])) {
 			flush = true
 			st = st[:n-1]
 		}
-		wantBody(c, "pager.go Layout", st, []string{
-			"m.lines = []*line{}",
-			"l := &line{}",
-			"col := 0",
-			"for _, seg := range m.Segments { for _, char := range vaxis.Characters(seg.Text) { if strings.ContainsRune(char.Grapheme, '\\n') { m.lines = append(m.lines, l) l = &line{} col = 0 continue } cell := vaxis.Cell{ Character: char, Style: seg.Style, } l.append(cell) col += char.Width if col >= m.width { m.lines = append(m.lines, l) l = &line{} col = 0 } } }",
-		})
+		fd.Body.List = st
+		wantFunc(c, "pager.go Layout", fd, "func (m *Model) Layout()")
 	} else {
 		c.Fail("widgets/pager/pager.go: Model.Layout not found")
 	}
 	if fd := ex.FindFunc(p, "Model", "Draw"); fd != nil {
-		wantBody(c, "pager.go Draw", fd.Body.List, []string{
-			"w, h := win.Size()",
-			"if w != m.width { m.width = w m.Layout() }",
-			"if len(m.lines)-m.Offset < h { m.Offset = len(m.lines) - h }",
-			"if m.Offset < 0 { m.Offset = 0 }",
-			"if m.Fill.Grapheme == \"\" { m.Fill.Character = defaultFill }",
-			"win.Fill(m.Fill)",
-			"for row, l := range m.lines { if row < m.Offset { continue } if (row - m.Offset) >= h { return } col := 0 for _, cell := range l.characters { win.SetCell(col, row-m.Offset, cell) col += cell.Width } }",
-		})
+		wantFunc(c, "pager.go Draw", fd, "func (m *Model) Draw(win vaxis.Window)")
 	} else {
 		c.Fail("widgets/pager/pager.go: Model.Draw not found")
 	}
 	if fd := ex.FindFunc(p, "Model", "ScrollDown"); fd != nil {
-		wantBody(c, "pager.go ScrollDown", fd.Body.List, []string{"m.Offset += 1"})
+		wantFunc(c, "pager.go ScrollDown", fd, "func (m *Model) ScrollDown()")
 	} else {
 		c.Fail("pager.go: ScrollDown not found")
 	}
 	if fd := ex.FindFunc(p, "Model", "ScrollUp"); fd != nil {
-		wantBody(c, "pager.go ScrollUp", fd.Body.List, []string{"m.Offset -= 1"})
+		wantFunc(c, "pager.go ScrollUp", fd, "func (m *Model) ScrollUp()")
 	} else {
 		c.Fail("pager.go: ScrollUp not found")
 	}
@@ -222,16 +411,7 @@ func gen(c *ex.Ctx) {
 		return
 	}
 	if fd := ex.FindFunc(s, "Model", "Draw"); fd != nil {
-		wantBody(c, "scrollbar.go Draw", fd.Body.List, []string{
-			"if m.TotalHeight < 1 { return }",
-			"if m.ViewHeight >= m.TotalHeight { return }",
-			"_, h := win.Size()",
-			"barH := (m.ViewHeight * h) / m.TotalHeight",
-			"if barH < 1 { barH = 1 }",
-			"barTop := (m.Top * h) / m.TotalHeight",
-			"if m.Character.Grapheme == \"\" { m.Character = defaultChar }",
-			"for i := 0; i < barH; i += 1 { cell := vaxis.Cell{ Character: m.Character, Style: m.Style, } win.SetCell(0, barTop+i, cell) }",
-		})
+		wantFunc(c, "scrollbar.go Draw", fd, "func (m *Model) Draw(win vaxis.Window)")
 	} else {
 		c.Fail("widgets/scrollbar/scrollbar.go: Model.Draw not found")
 	}
@@ -277,10 +457,10 @@ func gen(c *ex.Ctx) {
 	// everything else the hand-written model transcribes is pinned by a digest of its normalised
 	// source (the cursor-gutter condition replaced by a placeholder)
 	want := map[string]string{
-		"Draw": "7c45c32bef536afd", "insertChildren": "7678979b363d2833", "NextItem": "e34eaeaf692e3c3c",
-		"PrevItem": "e74d468d037bab6f", "ensureScroll": "0c111be144cb6386", "SetCursor": "d8b2192baad44df3",
-		"SetPendingScroll": "7814a9c73572b722", "HandleEvent": "0a27d1f9a4445972", "CaptureEvent": "a8cf03d3671103a9",
-		"Cursor": "742c0785f4dd7ef8", "Offset": "2b9243bfdb8a7789",
+		"Draw": "8e1973df1f77c317", "insertChildren": "843b02c7b9d6cf88", "NextItem": "8e80839a17f62206",
+		"PrevItem": "74bcf84bf73521a0", "ensureScroll": "81dabf4a2c39627a", "SetCursor": "fd70cda53d473a1e",
+		"SetPendingScroll": "2f8d3b205c29da46", "HandleEvent": "4008face951abae6", "CaptureEvent": "9022d9aae43be6e0",
+		"Cursor": "16a4f696940a09df", "Offset": "a1fd1f518813ca53",
 	}
 	for _, nm := range []string{"Draw", "insertChildren", "NextItem", "PrevItem", "ensureScroll", "SetCursor", "SetPendingScroll", "HandleEvent", "CaptureEvent", "Cursor", "Offset"} {
 		fd := ex.FindFunc(d, "Dynamic", nm)
@@ -288,7 +468,7 @@ func gen(c *ex.Ctx) {
 			c.Fail("vxfw/list/list.go: Dynamic.%s not found", nm)
 			continue
 		}
-		got := fmt.Sprintf("%x", sha256.Sum256([]byte(norm(c, fd.Body))))[:16]
+		got := fmt.Sprintf("%x", sha256.Sum256([]byte(canon(c, fd))))[:16]
 		if got != want[nm] {
 			c.Fail("vxfw/list/list.go: Dynamic.%s changed (digest %s, the model transcribes %s): re-read the function and update Model/DynList.lean", nm, got, want[nm])
 		}
